@@ -142,6 +142,8 @@ pub open spec fn entry_wf(f: &Fsm, g: &GlobalData) -> bool {
     &&& forall|h: u32| hv_has(g, h) ==> #[trigger] hv_entry_ok(f, g, h)
     &&& forall|s: u32| valid_id(f, s) && (#[trigger] st(f, s)).initial != 0 ==> valid_tr(f, st(f, s).initial)
     &&& forall|s: u32| valid_id(f, s) && (#[trigger] st(f, s)).parent == 0 ==> s == f.pseudo_root
+    &&& forall|s: u32| valid_id(f, s) && parent_of(f, s) != 0 ==> !is_history(f, #[trigger] parent_of(f, s))
+    &&& forall|s: u32, i: int| valid_id(f, s) && 0 <= i < st(f, s).history.data@.len() ==> is_history(f, #[trigger] st(f, s).history.data@[i]) && parent_of(f, st(f, s).history.data@[i]) == s
     &&& valid_id(f, f.pseudo_root)
     &&& !st(f, f.pseudo_root).is_final
 }
@@ -406,4 +408,42 @@ pub open spec fn all_children_final(f: &Fsm, cfg: Seq<u32>, p: u32) -> bool {
 
 pub open spec fn done_state_prefix() -> Seq<char> {
     "done.state."@
+}
+
+/// states marked for entry are valid, ordinary (non-history) states
+pub open spec fn entered_ok(f: &Fsm, e: Seq<u32>) -> bool {
+    all_valid(f, e) && forall|i: int| 0 <= i < e.len() ==> !is_history(f, #[trigger] e[i])
+}
+
+pub proof fn lemma_entered_ok_add(f: &Fsm, e: Seq<u32>, s: u32)
+    requires
+        entered_ok(f, e),
+        valid_id(f, s),
+        !is_history(f, s),
+    ensures
+        entered_ok(f, set_add(e, s)),
+{
+}
+
+/// proper ancestors are never history pseudo-states
+pub proof fn lemma_ancestors_nonhist(f: &Fsm, g: &GlobalData, s: u32, a: u32)
+    requires
+        entry_wf(f, g),
+        valid_id(f, s),
+    ensures
+        forall|i: int| 0 <= i < ancestors_upto(f, s, a).len() ==> !is_history(f, #[trigger] ancestors_upto(f, s, a)[i]),
+        forall|i: int| 0 <= i < proper_ancestors(f, s, a).len() ==> !is_history(f, #[trigger] proper_ancestors(f, s, a)[i]),
+    decreases rk(f, s),
+{
+    let p = parent_of(f, s);
+    if p != 0 && p != a {
+        lemma_rank(f, s);
+        lemma_ancestors_nonhist(f, g, p, a);
+        let rest = ancestors_upto(f, p, a);
+        assert forall|i: int| 0 <= i < ancestors_upto(f, s, a).len() implies !is_history(f, #[trigger] ancestors_upto(f, s, a)[i]) by {
+            if i > 0 {
+                assert(ancestors_upto(f, s, a)[i] == rest[i - 1]);
+            }
+        }
+    }
 }
